@@ -33,7 +33,7 @@ def run(ctx):
     trans += rl.generated
     # 2. spec -> code: tours of the tag-group models
     ct2 = srvfam.consts(ctx, NReq=2, Tags={1, 2}, Kinds={"Stat"}, SharedTags=True, Late=True, InitFids={1})
-    ct3 = srvfam.consts(ctx, NReq=3, Tags={1, 2}, Kinds={"Stat"}, SharedTags=True, Late=False, InitFids={1})
+    ct3 = srvfam.consts(ctx, NReq=3, Tags={1} if q else {1, 2}, Kinds={"Stat"}, SharedTags=True, Late=False, InitFids={1})
     traces = 0
     samples = []
     rejects = []
@@ -64,12 +64,14 @@ def run(ctx):
     for mp in ([0, 4] if q else [0, 1, 4]):
         runs.append(dict(mp=mp, groups=False, n=4 if q else 6, hmax=3 if q else 6, permmax=3, maxcases=60 if q else 700))
         runs.append(dict(mp=mp, groups=True, n=5 if q else 8, hmax=2 if q else 3, permmax=2 if q else 3, maxcases=40 if q else 500))
+    runs.append(dict(mp=0, groups=True, n=5 if q else 7, hmax=2 if q else 3, permmax=2, maxcases=40 if q else 400, eventloop=True))
+    runs.append(dict(mp=0, groups=False, n=4 if q else 6, hmax=2 if q else 3, permmax=2, maxcases=30 if q else 300, eventloop=True))
     for i, rr in enumerate(runs):
         nt = rr["n"] + 3
         ch = srvfam.consts(ctx, NReq=rr["n"] + 2, Tags=set(range(1, nt + 1)), Fids={1, 2}, Kinds={"Stat"}, SharedTags=rr["groups"],
                            Late=False, InitFids={1}, Maxpend=rr["mp"])
         hc = {"n": rr["n"], "m": 2, "hmax": rr["hmax"], "groups": rr["groups"], "close": False, "partial": False,
-              "kinds": ["Stat"], "maxcases": rr["maxcases"], "permmax": rr["permmax"], "unknownfids": True}
+              "kinds": ["Stat"], "maxcases": rr["maxcases"], "permmax": rr["permmax"], "unknownfids": True, "eventloop": bool(rr.get("eventloop"))}
         tag = "held%d" % i
         hrep, tp, ep, bp = held_run(ctx, ch, hc, tag, 500000 + 10000 * i)
         rj, tl = srvfam.run_trace_validation(ctx, tp, ch, name="Srv9PTrace:" + tag)
